@@ -460,6 +460,8 @@ def gen_merge_pair(rng, tags: set) -> tuple[list, list]:
         tags.add('merge-with-set')
     if any(t in (3, 4) for t, _ in as2):
         tags.add('merge-with-confed')
+    if any(t in (3, 4) for t, _ in as4):
+        tags.add('as4-path-with-confed')  # RFC 6793 6: discarded by the receiver (F99)
     return as2, as4
 
 
@@ -521,6 +523,9 @@ def boundary_cases(rng, shape: dict, unknown_codes: list[int]) -> list[dict]:
             ([(2, [AS_TRANS])], [(2, [70000, 3])], 'as4-longer-ignored'),
             ([(2, [1, 2]), (1, [5, 6]), (2, [AS_TRANS])], [(2, [70000])], 'merge-with-set'),
             ([(3, [64512]), (2, [1, AS_TRANS])], [(2, [70000])], 'merge-with-confed'),
+            # F99: confederation segments are not valid in an AS4_PATH; a receiver discards them (RFC 6793 6)
+            ([(3, [64512, AS_TRANS]), (2, [AS_TRANS, 3])], [(3, [64512, 70001]), (2, [70000, 3])], 'as4-path-with-confed'),
+            ([(3, [64512]), (2, [AS_TRANS, 3])], [(2, [70000, 3]), (4, [64513])], 'as4-path-with-confed'),
         ):
             u = base({'as4-path', tg})
             a2 = next(a for a in u['a'] if a['code'] == 2)
